@@ -103,6 +103,14 @@ Theorem C19_mv_self_refuted :
 Proof. exists w_self. vm_compute. intro H. discriminate H. Qed.
 Print Assumptions C19_mv_self_refuted.
 
+(** Third defect of the code as it is (finding C19-5): with the store failing, Mv onto an
+    existing FILE returns an error but has already unlinked that file. *)
+Definition w_mvx : list op := [OCreate [4]; OCreate [5]; OMvX [4] [5] false; OList []].
+Theorem C19_mvx_unlink_refuted :
+  exists ops, snd (m_run flags_mvx (load newdir) ops) <> snd (t_run newdir ops).
+Proof. exists w_mvx. vm_compute. intro H. discriminate H. Qed.
+Print Assumptions C19_mvx_unlink_refuted.
+
 (** Non-vacuity: the invariant holds initially, and a history with unsynced writes,
     metadata, a move between same-named directories and sub-path flushes. *)
 Example C19_wf_root : wf (load newdir).
